@@ -56,6 +56,12 @@ def cases(rng, tier, X):
                                                      F.emit(mapper, own, 3, [(1, 0, F.rand_mac(rng), F.rand_mac(rng))], eth_src=eth)]))
             for q in range(len(keys) // maxd + 2):
                 # the Query may arrive by another path than the frame that established the mapper (directly / through a bridge)
+                if rng.random() < 0.2:
+                    # the platform refuses the memory for this response (once, or for a while): the mapper retries - nothing may be lost
+                    ops.append(rng.choice(['fault malloc=1', 'fault malloc=1', 'fault malloc=1,2', 'fault mallocall']))
+                    for _ in range(rng.choice([1, 1, 2])):
+                        ops.append('rx 0 ' + F.query(mapper, own, rng.randrange(1, 65536), eth_src=rng.choice([eth, eth, None])))
+                    ops.append('fault clear')
                 ops.append('rx 0 ' + F.query(mapper, own, rng.randrange(1, 65536), eth_src=rng.choice([eth, eth, None, rng.choice(F.STATIONS)])))
             if rng.random() < 0.3:
                 for _ in range(rng.randint(1, 5)):
